@@ -123,3 +123,28 @@ Definition opt_spec (b : bytes) : option (option N * N) :=
               end
   | _ => None
   end.
+
+(** [read_t::<T>]: the canonical bounded prefix, and the value must fit the target type. *)
+Definition readt_spec (bits : N) (b : bytes) : option (N * N) :=
+  match cs_spec (Some MAX_COMPACT_SIZE) b with
+  | Some (v, k) => if v <? 2 ^ bits then Some (v, k) else None
+  | None => None
+  end.
+
+(** Counted vector of one-byte elements read from a stream of [T] bytes whose first bytes are
+    [s9]: with an acceptable count prefix (n, k bytes long) the reader yields exactly n elements
+    and takes k + n bytes, or fails when fewer than n bytes follow; with an unacceptable prefix
+    (non-canonical, above MAX_COMPACT_SIZE, truncated) it fails having taken at most the prefix. *)
+Definition vecfill_prop (T : N) (s9 : bytes) (o : outcome (N * N) N) : bool :=
+  match cs_spec (Some MAX_COMPACT_SIZE) s9, o with
+  | Some (n, k), Ok (n', c) => (n <=? T - k) && (n' =? n) && (c =? k + n)
+  | Some (n, k), Err c => (T - k <? n) && (c <=? T)
+  | None, Err c => (c <=? 9) && (c <=? T)
+  | _, _ => false
+  end.
+Definition arrfill_prop (count T : N) (o : outcome (N * N) N) : bool :=
+  match o with
+  | Ok (n, c) => (count <=? T) && (n =? count) && (c =? count)
+  | Err c => (T <? count) && (c <=? T)
+  | Panic => false
+  end.
